@@ -10,7 +10,8 @@
 (* requirement, minValues, not Ready, startup taint + stale hash), a        *)
 (* three-type catalog whose price order depends on the zone and on which    *)
 (* offerings are available, 0-2 daemonsets, NPods pods from six archetypes, *)
-(* a minValues policy and a scheduling.MaxInstanceTypes.                    *)
+(* a minValues policy and a scheduling.MaxInstanceTypes (archetype 7 carries *)
+(* a preferred node-affinity term).                                         *)
 (*                                                                         *)
 (* The MECHANISM is Karpenter's (scheduler.go / nodeclaim.go /              *)
 (* nodeclaimtemplate.go / cloudprovider/types.go), one action per           *)
@@ -98,6 +99,7 @@ Arch(a, name) ==
       [] a = 4 -> [P0(name, 500) EXCEPT !.sel = [zone |-> "b"]]                      \* zone b only
       [] a = 5 -> [P0(name, 1500) EXCEPT !.terms = <<<<E("team", "In", <<"x">>)>>>>]  \* needs the team label
       [] a = 6 -> [P0(name, 500) EXCEPT !.terms = <<<<E("team", "In", <<"x">>)>>, <<E("zone", "In", <<"b">>)>>>>]   \* two OR-terms
+      [] a = 7 -> [P0(name, 500) EXCEPT !.pref = <<[weight |-> 10, exprs |-> <<E("zone", "In", <<"b">>)>>]>>]         \* PREFERS zone b
 PodName(i) == "w" \o ToString(i)
 Batches == {s \in [1..NPods -> PodArchs] : \A i \in 1..(NPods - 1) : s[i] <= s[i + 1]}
 
@@ -138,8 +140,8 @@ SelExprsOf(sel, S) == IF S = {} THEN <<>> ELSE LET k == CHOOSE x \in S : TRUE IN
 SelExprs(sel) == SelExprsOf(sel, DOMAIN sel)
 MeetMap(a, b) == [k \in DOMAIN U |-> Meet(a[k], b[k], k)]
 AllNonEmpty(m) == \A k \in DOMAIN U : NonEmpty(m[k], k)
-\* the pod as Karpenter schedules it now: node selector and the FIRST required term
-PodReqs(e) == ReqsOfExprs(SelExprs(e.sel) \o (IF e.terms = <<>> THEN <<>> ELSE e.terms[1]))
+\* the pod as Karpenter schedules it now: node selector, the FIRST required term and the HEAVIEST preferred term
+PodReqs(e) == ReqsOfExprs(SelExprs(e.sel) \o (IF e.terms = <<>> THEN <<>> ELSE e.terms[1]) \o PrefInForce(cfg, e))
 \* template of a pool; a custom key it does not define is MISSING on its nodes
 TemplateReqs(q) ==
     LET m == MeetMap(ReqsOfExprs([i \in DOMAIN q.reqs |-> E(q.reqs[i].key, q.reqs[i].op, q.reqs[i].vals)]),
@@ -236,14 +238,16 @@ Join(k, i) ==
     /\ state' = [state EXCEPT ![k] = "placed"]
     /\ UNCHANGED <<cfg, wk, pre, order, eff, left, oleft, bad>>
 
-\* Preferences.Relax for a pod without preferences: drop the first of several required terms; finally tolerate PreferNoSchedule
+\* Preferences.Relax: drop the first of several required terms; then the heaviest preferred term; finally tolerate PreferNoSchedule
 HasSoft == \E q \in Range(cfg.pools) : \E t \in Range(q.taints) : t.effect = "PreferNoSchedule"
 SoftTol == [key |-> "", op |-> "Exists", value |-> "", effect |-> "PreferNoSchedule"]
-CanRelax(e) == Len(e.terms) > 1 \/ (HasSoft /\ SoftTol \notin Range(e.tol))
+CanRelax(e) == Len(e.terms) > 1 \/ e.pref # <<>> \/ (HasSoft /\ SoftTol \notin Range(e.tol))
 Relax(k, ok) ==
     LET e == eff[k] IN
     /\ bad = "" /\ ok = {} /\ CanRelax(e)
-    /\ eff' = [eff EXCEPT ![k] = IF Len(e.terms) > 1 THEN [e EXCEPT !.terms = Tail(e.terms)] ELSE [e EXCEPT !.tol = Append(e.tol, SoftTol)]]
+    /\ eff' = [eff EXCEPT ![k] = IF Len(e.terms) > 1 THEN [e EXCEPT !.terms = Tail(e.terms)]
+                                 ELSE IF e.pref # <<>> THEN [e EXCEPT !.pref = SelectSeq(e.pref, LAMBDA x : x # e.pref[Heaviest(e.pref)])]
+                                 ELSE [e EXCEPT !.tol = Append(e.tol, SoftTol)]]
     /\ UNCHANGED <<cfg, wk, pre, order, left, oleft, claims, state, bad>>
 
 \* the pod ends the pass without a home
